@@ -4,7 +4,7 @@
    loops + half-close + join).  deframe_cur is the de-framing loop after
    fixes/C12-udp-deframe-spin-on-truncated-record.diff, deframe_pinned the loop of the pinned tree; the
    buffer sizes are the values regenerated from copy.go on every run (Gen/C12.v). *)
-From TX Require Import Model.Relay Proofs.Relay Proofs.SideC12 Gen.C12.
+From TX Require Import Model.Relay Proofs.Relay Proofs.RelayTcp Proofs.SideC12 Gen.C12.
 Open Scope N_scope.
 
 (* (2) termination at EVERY cut offset: the encoding of any datagram list, ended at any byte offset
@@ -74,54 +74,80 @@ Proof. exact c12_premises_satisfiable. Qed.
 Print Assumptions C12_premises_satisfiable.
 
 (* ---- TCP: iocopy.Bidirectional as three threads (A->B copier, B->A copier, main) over Threads.v.
-   tcp_run sA sB cutsA cutsB endA endB wdA wdB sched = the state after ANY schedule `sched`, where endpoint A
-   sends the bytes sA under chunk oracle cutsA and ends with kind endA (0 = EOF, else an error, possibly
-   delivered with the last chunk), likewise B, and both endpoints accept every write. ---- *)
+   tcp_run_w cfgA cfgB sA sB cutsA cutsB endA endB wdA wdB sched = the state after ANY schedule `sched`, where
+   endpoint A sends the bytes sA under chunk oracle cutsA and ends with kind endA (0 = EOF, else an error,
+   possibly delivered with the last chunk), likewise B, both endpoints accept every write, and endpoint X is
+   handed to the relay as cfgX : wcfg — a conn with / without CloseWrite, or iocopy.NewReadWriteCloser
+   [WithCloseWrite](reader, writer, closeFunc[, closeWriteFunc]) in any configuration (closeWriteFunc set or not,
+   wrapped writer with or without CloseWrite, closeFunc set or nil).  tryCloseWrite + the wrapper's
+   CloseWrite are modelled by close_write_dispatch, whose result HcClose would be a FULL close. ---- *)
 
-(* delivered_is_prefix: at every point of every schedule, what has been written to B is a prefix of what A
-   sent and vice versa (in order, nothing invented), and no Read/Write has hit an endpoint that was
-   already closed by the relay *)
+(* the wrapper's half-close dispatch (closeWriteFunc | writer.CloseWrite | no-op) is never a full close *)
+Theorem C12_wrapper_half_close_never_closes :
+  forall c : wcfg, close_write_dispatch c <> HcClose.
+Proof. exact dispatch_never_closes. Qed.
+Print Assumptions C12_wrapper_half_close_never_closes.
+
+(* ... and what it is, for the seven configurations the harness builds with the real constructors:
+   (CloseWrite calls reaching the endpoint, closeWriteFunc calls, Close calls reaching the endpoint) *)
+Theorem C12_wrapper_dispatch_table :
+  map (fun k => (ncw (wrap_cfg k), ncwf (wrap_cfg k), ncl (wrap_cfg k))) [0; 1; 2; 3; 4; 5; 6]
+  = [(1, 0, 1); (0, 0, 1); (0, 0, 1); (1, 0, 1); (0, 1, 1); (0, 1, 1); (0, 0, 0)].
+Proof. exact c12_wrapper_table. Qed.
+Print Assumptions C12_wrapper_dispatch_table.
+
+(* delivered_is_prefix: at every point of every schedule, for every pair of endpoint configurations, what has
+   been written to B is a prefix of what A sent and vice versa (in order, nothing invented), and no
+   Read/Write has hit an endpoint that was already closed by the relay *)
 Theorem C12_tcp_delivered_is_prefix :
-  forall sA sB cutsA cutsB endA endB wdA wdB sched,
-  let s := tcp_run sA sB cutsA cutsB endA endB wdA wdB sched in
+  forall cfgA cfgB sA sB cutsA cutsB endA endB wdA wdB sched,
+  let s := tcp_run_w cfgA cfgB sA sB cutsA cutsB endA endB wdA wdB sched in
   (exists x, sA = d_out (sh_d0 (fst s)) ++ x) /\ (exists y, sB = d_out (sh_d1 (fst s)) ++ y) /\
   sh_io_after_close (fst s) = 0.
 Proof. exact c12_tcp_prefix. Qed.
 Print Assumptions C12_tcp_delivered_is_prefix.
 
-(* complete + returns_after_both_done: under every schedule, once Bidirectional has returned every byte of
-   both directions has been delivered (read errors included: everything read before the error is delivered),
-   the byte counters are exact, each endpoint was half-closed exactly once and closed exactly once *)
+(* complete + returns_after_both_done: under every schedule and every configuration pair, once Bidirectional
+   has returned every byte of both directions has been delivered (read errors included: everything read
+   before the error is delivered), the byte counters are exact, the half-close reached each endpoint exactly
+   as its configuration dispatches (ncw / ncwf) and each endpoint was closed exactly ncl times (once, or
+   never when closeFunc is nil) *)
 Theorem C12_tcp_complete_when_returned :
-  forall sA sB cutsA cutsB endA endB wdA wdB sched,
-  let s := tcp_run sA sB cutsA cutsB endA endB wdA wdB sched in
+  forall cfgA cfgB sA sB cutsA cutsB endA endB wdA wdB sched,
+  let s := tcp_run_w cfgA cfgB sA sB cutsA cutsB endA endB wdA wdB sched in
   sh_ret (fst s) = true ->
   d_out (sh_d0 (fst s)) = sA /\ d_out (sh_d1 (fst s)) = sB /\
   d_bytes (sh_d0 (fst s)) = lenN sA /\ d_bytes (sh_d1 (fst s)) = lenN sB /\
-  d_cw (sh_d0 (fst s)) = 1 /\ d_cw (sh_d1 (fst s)) = 1 /\
-  sh_ncl_a (fst s) = 1 /\ sh_ncl_b (fst s) = 1 /\ sh_io_after_close (fst s) = 0.
+  (d_cw (sh_d0 (fst s)) = ncw cfgB /\ d_cwf (sh_d0 (fst s)) = ncwf cfgB) /\
+  (d_cw (sh_d1 (fst s)) = ncw cfgA /\ d_cwf (sh_d1 (fst s)) = ncwf cfgA) /\
+  sh_ncl_a (fst s) = ncl cfgA /\ sh_ncl_b (fst s) = ncl cfgB /\ sh_io_after_close (fst s) = 0.
 Proof. exact c12_tcp_complete. Qed.
 Print Assumptions C12_tcp_complete_when_returned.
 
-(* reverse_continues_after_half_close: under every schedule, while at least one copier has not finished,
-   NEITHER endpoint is closed (so the other direction keeps flowing), and a finished direction has
-   half-closed its destination exactly once *)
-Theorem C12_tcp_reverse_continues_after_half_close :
-  forall sA sB cutsA cutsB endA endB wdA wdB sched p0 p1 pm,
-  let s := tcp_run sA sB cutsA cutsB endA endB wdA wdB sched in
+(* reverse_continues_after_half_close, for EACH wrapper configuration: under every schedule, while at least one
+   copier has not finished, NEITHER endpoint is closed and NO Close call has reached either endpoint — the
+   half-close performed by the direction that finished first did not close the other direction's path — and
+   that half-close reached its destination exactly as the destination's configuration dispatches *)
+Theorem C12_tcp_half_close_never_closes_reverse_path :
+  forall cfgA cfgB sA sB cutsA cutsB endA endB wdA wdB sched p0 p1 pm,
+  let s := tcp_run_w cfgA cfgB sA sB cutsA cutsB endA endB wdA wdB sched in
   snd s = [(0%nat, p0); (1%nat, p1); (2%nat, pm)] -> (p0 <> PDone \/ p1 <> PDone) ->
   sh_closed_a (fst s) = false /\ sh_closed_b (fst s) = false /\
-  (p0 = PDone -> d_cw (sh_d0 (fst s)) = 1) /\ (p1 = PDone -> d_cw (sh_d1 (fst s)) = 1).
+  sh_ncl_a (fst s) = 0 /\ sh_ncl_b (fst s) = 0 /\
+  (p0 = PDone -> d_cw (sh_d0 (fst s)) = ncw cfgB /\ d_cwf (sh_d0 (fst s)) = ncwf cfgB) /\
+  (p1 = PDone -> d_cw (sh_d1 (fst s)) = ncw cfgA /\ d_cwf (sh_d1 (fst s)) = ncwf cfgA).
 Proof. exact c12_tcp_half_close. Qed.
-Print Assumptions C12_tcp_reverse_continues_after_half_close.
+Print Assumptions C12_tcp_half_close_never_closes_reverse_path.
 
-(* non-vacuity: a concrete schedule (A finishes and half-closes B first, B answers, ending in an error
-   delivered with its data) reaches the returned state *)
+(* non-vacuity: the client's construction — local conn A with CloseWrite, tunnel B = NewReadWriteCloser(reader,
+   writer without CloseWrite, closeFunc) — A reaches EOF and half-closes B first, B answers afterwards (ending
+   in an error delivered with its data); the schedule reaches the returned state with everything delivered *)
 Theorem C12_tcp_returns_example :
-  let s := tcp_run [1; 2; 3] [4; 5] [1%nat; 1%nat] [] 0 1 false true
+  let s := tcp_run_w (wrap_cfg 0) (wrap_cfg 2) [1; 2; 3] [4; 5] [1%nat; 1%nat] [] 0 1 false true
              ([0; 0; 0; 0; 0; 0; 2; 1; 2; 1; 1; 1; 2; 2; 2; 2]%nat) in
   sh_ret (fst s) = true /\ d_out (sh_d0 (fst s)) = [1; 2; 3] /\ d_out (sh_d1 (fst s)) = [4; 5] /\
-  d_err (sh_d0 (fst s)) = 0 /\ d_err (sh_d1 (fst s)) = 1.
+  d_err (sh_d0 (fst s)) = 0 /\ d_err (sh_d1 (fst s)) = 1 /\
+  d_cw (sh_d0 (fst s)) = 0 /\ sh_ncl_b (fst s) = 1.
 Proof. exact c12_tcp_returns_example. Qed.
 Print Assumptions C12_tcp_returns_example.
 
@@ -129,7 +155,7 @@ Print Assumptions C12_tcp_returns_example.
    state.  The correspondence run exercises it (the model must report sh_ret under the generated fair
    schedules, the real code must return before the watchdog). *)
 Definition C12_tcp_termination_full_statement : Prop :=
-  forall sA sB cutsA cutsB endA endB wdA wdB sched,
+  forall cfgA cfgB sA sB cutsA cutsB endA endB wdA wdB sched,
   (forall i, (i < 3)%nat -> (length sA + length sB + 8 <= count_occ Nat.eq_dec sched i)%nat) ->
-  sh_ret (fst (tcp_run sA sB cutsA cutsB endA endB wdA wdB
+  sh_ret (fst (tcp_run_w cfgA cfgB sA sB cutsA cutsB endA endB wdA wdB
                  (sched ++ concat (repeat [0; 1; 2]%nat (length sA + length sB + 8))))) = true.
